@@ -167,7 +167,7 @@ def run(ctx, out):
                 'element converters run alone on the sub-values: children keys = positions or keys rejected on their own, each child '
                 'equal to the element tree, missing / extra exact, one union child per member in order, leaves record the sub-value. '
                 'Non-trivial = non-leaf type; distinct by (type term, value).')
-    convprop.run(ctx, out, PROP, monitor, cfg={'weights': {'class': 2.5, 'dict': 2.0, 'seq': 2.0, 'union': 2.0, 'struct': 1.5, 'enum': 1.0}}, extra_cases=lambda rng: convprop.cases_from_pairs(gen.tagged_shape_cases(rng), rng, 'tagged-shapes'))
+    convprop.run(ctx, out, PROP, monitor, cfg={'weights': {'class': 2.5, 'dict': 2.0, 'seq': 2.0, 'union': 2.0, 'struct': 1.5, 'enum': 1.0}}, extra_cases=lambda rng: convprop.cases_from_pairs(gen.tagged_shape_cases(rng), rng, 'tagged-shapes') + convprop.cases_from_pairs(gen.degenerate_class_cases(rng), rng, 'degenerate-classes'))
 
 
 def replay(rep, out):
